@@ -81,9 +81,8 @@ func c10ExtRead(bs uint32, nExt, N int, counts []uint16) {
 	fl, exts, _ := c10ExtFile(dev, bs, nExt, 1<<40, counts)
 	size := int64(fl.size)
 	off := fl.offset
-	// KF-C10-3 (attributed through KnownPanic below): the read starts inside the block that
-	// follows the last block of an extent (not at that block's first byte): Read does not skip
-	// that extent, computes a negative length and panics in make().
+	// (KF-C10-3, repaired by efb3698: a read starting inside the block that follows the last block
+	// of an extent computed a negative length and panicked in make().)
 
 	buf := vp.Bytes("buf", N)
 	orig := make([]byte, N)
@@ -102,9 +101,8 @@ func c10ExtRead(bs uint32, nExt, N int, counts []uint16) {
 	}
 
 	vp.AllocCap(N)
-	vp.Unwind(nExt + 2)
+	vp.Unwind(nExt + 4) // one iteration per extent, one for a hole at the end, exit tests
 	vp.NoPanic()
-	vp.KnownPanic("KF-C10-3", "ext4/file.go:73")
 	n, err := fl.Read(buf[:k])
 	vp.AllowPanic()
 	vp.Unwind(16)
@@ -209,9 +207,8 @@ func c10ExtGeometry(bs uint32) {
 		want = rem
 	}
 	vp.AllocCap(N)
-	vp.Unwind(4)
+	vp.Unwind(6)
 	vp.NoPanic()
-	vp.KnownPanic("KF-C10-3", "ext4/file.go:73")
 	n, _ := fl.Read(buf[:k])
 	vp.AllowPanic()
 	vp.Unwind(16)
@@ -354,9 +351,8 @@ func VP_C10_ext4_sequence_vs_bytes_reader() {
 		vp.Assume(k <= K)
 		b1 := make([]byte, K)
 		b2 := make([]byte, K)
-		vp.Unwind(4)
+		vp.Unwind(6)
 		vp.NoPanic()
-		vp.KnownPanic("KF-C10-3", "ext4/file.go:73")
 		n1, r1 := fl.Read(b1[:k])
 		vp.AllowPanic()
 		vp.Unwind(16)
